@@ -69,6 +69,10 @@ func TestVerifDcState(t *testing.T) {
 	notDriven := 0
 	var pair *vdPair
 	for _, bh := range behaviours {
+		if bh.Start == "noassoc" {
+			vdRunNoAssoc(t, tr, bh)
+			continue
+		}
 		if pair == nil {
 			pair = vdNewPair(t)
 		}
@@ -312,4 +316,61 @@ func vdRun(t *testing.T, tr *vkTrace, bh vdBehaviour, pair *vdPair) (bool, bool)
 		"sig": fmt.Sprintf("end(start=%s,close=%v,pcclose=%v,state=%s)", bh.Start, closeCalled, pcClosed, state)})
 	verifYieldHook, verifEventHook = nil, nil
 	return driven, pcClosed
+}
+
+// vdRunNoAssoc: a channel on a PeerConnection that is closed before any SCTP association exists
+// (never signalled, or only half way). Sequential: Close and PeerConnection.Close in the given order.
+func vdRunNoAssoc(t *testing.T, tr *vkTrace, bh vdBehaviour) {
+	t.Helper()
+	tr.Reset(bh.ID)
+	a, b, err := newPair()
+	if err != nil {
+		t.Fatal(err)
+	}
+	defer func() { _ = b.Close() }()
+	d, err := a.CreateDataChannel("na", nil)
+	if err != nil {
+		t.Fatal(err)
+	}
+	var opens, closes atomic.Int64
+	d.OnOpen(func() {
+		tr.Emit(vkM{"ev": "handler", "t": bh.ID, "to": "open", "by": "", "ordered": true, "n": int(opens.Add(1)), "sig": "OnOpen"})
+	})
+	d.OnClose(func() {
+		tr.Emit(vkM{"ev": "handler", "t": bh.ID, "to": "close", "by": "", "ordered": true, "n": int(closes.Add(1)), "sig": "OnClose"})
+	})
+	verifEventHook = func(point string, obj any, args ...any) {
+		if point != "dc.state" || obj != any(d) {
+			return
+		}
+		st, _ := args[0].(DataChannelState)
+		tr.Emit(vkM{"ev": "store", "t": bh.ID, "to": st.String(), "by": "seq", "ordered": true,
+			"sig": fmt.Sprintf("store(%s,by=seq,start=noassoc)", st.String())})
+	}
+	half := bh.WithP // reuse the flag: apply the offer on both sides before closing
+	if half {
+		if offer, err := a.CreateOffer(nil); err == nil {
+			_ = a.SetLocalDescription(offer)
+			_ = b.SetRemoteDescription(offer)
+		}
+	}
+	closeCalled := false
+	for _, st := range bh.Steps {
+		switch st.Proc {
+		case "C":
+			if !closeCalled {
+				closeCalled = true
+				_ = d.Close()
+			}
+		case "P":
+			_ = a.Close()
+		}
+	}
+	_ = a.Close()
+	time.Sleep(time.Millisecond)
+	state := d.ReadyState().String()
+	tr.Emit(vkM{"ev": "end", "t": bh.ID, "to": state, "by": "", "ordered": true, "closeCalled": closeCalled, "gone": true,
+		"quiesced": true, "sendErr": d.Send([]byte("probe")) != nil, "driven": true,
+		"sig": fmt.Sprintf("end(start=noassoc,close=%v,pcclose=true,state=%s)", closeCalled, state)})
+	verifEventHook = nil
 }
